@@ -8,16 +8,16 @@ from lib import gpgen
 from py2v import gen
 
 PROP = "C04"
-PROPS_FILES = ["Props/C04_kernels.v", "Props/C04_acq.v", "Props/C04_gp.v", "Props/C04_poly.v"]
+PROPS_FILES = ["Props/C04_kernels.v", "Props/C04_acq.v", "Props/C04_gp.v", "Props/C04_poly.v", "Props/C04_handir.v"]
 ASSUMPTIONS = [
   "real arithmetic (Coq R, Coquelicot is_derive); rounding outside the model",
   "log marginal likelihood gradient is PARTIAL: Jacobi's formula d log det K = tr(K^-1 dK) and d(r' K^-1 r) = -(a' dK a) are hypotheses (no determinant calculus over R available)",
   "EI gradient is proved where the clamp max(0, .) is inactive (z Phi(z) + pdf(z) > 0, which holds for all z mathematically; the tail fact is an assumption)",
   "logistic success probability: gradient proved below the exponent cap (kappa (mean - threshold) < 40)",
-  "the product-model gradient and the likelihood-gradient loop are hand-written IR tied by the numeric self-check only",
+  "the product-model gradient and the likelihood-gradient loop, written by hand in the first rounds, are now also TRANSLATED from the source loops (range loops, boolean masks, per-element stores) and the hand-written forms are proved equal to the translated ones (Props/C04_handir.v)",
   "C0 Matern has no gradient in the library (not a DifferentiableCovariance)",
 ]
-TRUSTED = ["tools/py2v translator (dual-rendering self-check on every run; two units are hand-written IR)"]
+TRUSTED = ["tools/py2v translator (dual-rendering self-check on every run; the two hand-written IR units are proved equal to their translated counterparts)"]
 LEVEL_TEXT = ("Coquelicot is_derive theorems stated on the value/gradient pairs regenerated from the source on every run: kernels w.r.t. inputs for all "
               "point pairs (coincident points by a squeeze argument) and w.r.t. every hyperparameter, multitask product rule, GP mean and variance "
               "(symmetric K^-1, translation invariance), EI, augmented penalty, product rule for penalised EI, logistic / CDF / product success "
